@@ -381,7 +381,7 @@ def check_callout_rendering(rep, prog):
             return
         k, v, g, lc = e[-1]
         okv = want_val(v)
-        eg, env, n = equivalent(ite(g, Const(1), Const(0)), ite(want_guard, Const(1), Const(0)), domain=dom)
+        eg, env, n = equivalent(ite(pelx.len_truth_norm(g), Const(1), Const(0)), ite(pelx.len_truth_norm(want_guard), Const(1), Const(0)), domain=dom)
         rep.check(okv and eg, rule, "%s: %s" % (key, desc), where, "json[%r]" % key,
                   "callout %s is not %s (value ok=%s, shown-when ok=%s%s): %r | %r" % (
                       key, desc, okv, eg, (" e.g. " + env_str(env)) if env else "", v, g))
@@ -401,7 +401,8 @@ def check_callout_rendering(rep, prog):
     need("Procedure", lambda v: v == Sym("fru.pn"), and_(hasFRU, bit(0x02)), "the 8-byte id when flag 0x02")
     need("CCIN", lambda v: v == Sym("fru.ccin"), and_(hasFRU, bit(0x04)), "the CCIN when flag 0x04")
     need("Serial Number", lambda v: v == Sym("fru.sn"), and_(hasFRU, bit(0x01)), "the serial number when flag 0x01")
-    need("PCE MTMS", lambda v: flat_parts(v) == [Sym("pce.mt"), Const("_"), Sym("pce.sn")],
+    unfv = lambda x: x.args[0] if isinstance(x, Op) and x.op == "fv" and x.args[1] == Const("") and x.args[2] == Const("") else x
+    need("PCE MTMS", lambda v: [unfv(x) for x in flat_parts(v)] == [Sym("pce.mt"), Const("_"), Sym("pce.sn")],
          and_(hasPCE, compare("gt", Op("len", Sym("pce.mt")), Const(0))), "machine type _ serial number of the PCE")
     need("PCE Name", lambda v: v == Sym("pce.name"), and_(hasPCE, compare("ne", Op("len", Sym("pce.name")), Const(0))), "the PCE name")
     # MRU ids
